@@ -311,8 +311,24 @@ const c08prov = `
 
 @ POST /db/articles {
   % db: Database
-  $ a = db.articles.create({title: input.title, tags: input.tags})
+  $ a = db.articles.create({title: input.title, tags: input.tags, meta: {views: 0, by: input.title}})
   > {route: "a-create", id: a.id}
+}
+
+@ GET /db/articles/:id/peek {
+  % db: Database
+  $ a = db.articles.get(id)
+  > {route: "a-peek", article: a}
+}
+
+@ GET /db/articles/:id/touch {
+  % db: Database
+  $ a = db.articles.get(id)
+  if a == null {
+    > {route: "a-touch", views: 1}
+  }
+  $ a.meta.views = a.meta.views + 1
+  > {route: "a-touch", views: a.meta.views}
 }
 
 @ POST /db/articles/search {
@@ -441,7 +457,12 @@ func c08Server(s *sim.Sim, p *sim.Params, providers bool) {
 				r = c08genCompiled(s)
 			} else {
 				nuniq++
-				switch s.Choose(sim.SWork, 18) {
+				switch s.Choose(sim.SWork, 21) {
+				case 18, 19:
+					// a request changes its own copy of a record it read (nothing is written back)
+					r = simReq{path: fmt.Sprintf("/db/articles/%d/touch", 1+s.Choose(sim.SWork, 3))}
+				case 20:
+					r = simReq{path: fmt.Sprintf("/db/articles/%d/peek", 1+s.Choose(sim.SWork, 3))}
 				case 14:
 					if s.Choose(sim.SWork, 2) == 0 {
 						r = simReq{method: "POST", path: "/db/articles", body: fmt.Sprintf(`{"title":"a%d","tags":["go","t%d"]}`, nuniq, ti)}
@@ -578,6 +599,19 @@ func c08providerInvariants(s *sim.Sim, results []c08result, sample []string) {
 			continue
 		}
 		switch body["route"] {
+		case "a-touch":
+			// the request incremented the counter of its own copy of a record nobody ever updates
+			if v, ok := body["views"].(float64); ok && v != 1 {
+				s.Fail("oracle", "provider-record-shared:touch", fmt.Sprintf("a request that adds 1 to the view counter of its own copy of a stored record (never written back) got %v: copies handed out by the store share nested values\n%s", v, hist))
+			}
+		case "a-peek":
+			if a, ok := body["article"].(map[string]interface{}); ok {
+				if m, ok := a["meta"].(map[string]interface{}); ok {
+					if v, ok := m["views"].(float64); ok && v != 0 {
+						s.Fail("oracle", "provider-record-shared:peek", fmt.Sprintf("a stored record that no request ever updates shows views=%v: a request's change to its own copy reached the store\n%s", v, hist))
+					}
+				}
+			}
 		case "r-incr":
 			if v, ok := body["value"].(float64); ok {
 				k := fmt.Sprint(body["key"])
